@@ -25,7 +25,7 @@ func registerC04() {
 			"every 29th position, thorough = all 2^15 patterns at every position; Decode (every fifth time with the unknown-item options and a logger) and CheckIntegrity must both return an error. Family headers: header sizes x protocol " +
 			"versions x profile versions x stored CRC {correct, 0, each single-bit error, PRNG} and every single-byte corruption of bytes 1-3, 8-13 of a correct 14-byte header, " +
 			"each inside an otherwise valid file with recomputed file CRC: CheckIntegrity(headerOnly), DecodeHeader, Decode and Header.CheckIntegrity - and DecodeHeaderAndFileID, DecodeChained and CheckIntegrity over the whole file, which read the header on their way - must all agree with the " +
-			"reference verdict. Family large-bursts: model streams of 5-120 KB and the device files up to 400 KB, each corrupted at 400 (quick) / 3000 (thorough) PRNG bit positions (concentrated around the decoder's 4096-byte buffer boundaries, record boundaries and the trailing CRC) with PRNG burst patterns of span <= 16. Family accepted: every output of a successful Encode of an API-built File (into a plain buffer, a file on disk, a bytes.Buffer already holding data, a bufio.Writer, a seekable in-memory writer; 12- and 14-byte headers; one file of 67 MB - thorough: also 135 and 270 MB) must pass CheckIntegrity; streams Decode accepts (model, device, Encode output, model streams padded to data sizes at and around multiples of the 4096-byte read buffer, and streams whose header lies about the data size - 0, 1, true +-1 ... - with and without trailer) must pass CheckIntegrity. A case is one corrupted file; distinct by construction",
+			"reference verdict. Family vendor-bursts: small files whose file_id names every (manufacturer, product) pair drawn from the integer values that occur in the library's own hand-written sources (literals and named constants, read from the tree under test at check time), each corrupted at single bits of its record data: Decode and CheckIntegrity must both return an error. Family large-bursts: model streams of 5-120 KB and the device files up to 400 KB, each corrupted at 400 (quick) / 3000 (thorough) PRNG bit positions (concentrated around the decoder's 4096-byte buffer boundaries, record boundaries and the trailing CRC) with PRNG burst patterns of span <= 16. Family accepted: every output of a successful Encode of an API-built File (into a plain buffer, a file on disk, a bytes.Buffer already holding data, a bufio.Writer, a seekable in-memory writer; 12- and 14-byte headers; one file of 67 MB - thorough: also 135 and 270 MB) must pass CheckIntegrity; streams Decode accepts (model, device, Encode output, model streams padded to data sizes at and around multiples of the 4096-byte read buffer, and streams whose header lies about the data size - 0, 1, true +-1 ... - with and without trailer) must pass CheckIntegrity. A case is one corrupted file; distinct by construction",
 		Assume:        []string{"'contiguous bits' are contiguous in the order the reflected CRC consumes them (LSB first); any error counts as detection"},
 		MinNontrivial: 20000,
 		Families: []lib.Family{
@@ -33,6 +33,7 @@ func registerC04() {
 			{Name: "headers", N: func(t string) uint64 { return 2 * 5 * 64 }, Run: c04Headers},
 			{Name: "header-bytes", N: func(t string) uint64 { return 9 }, Run: c04HeaderBytes},
 			{Name: "accepted", N: func(t string) uint64 { return tierN(t, 3000, 200000) }, Run: c04Accepted},
+			{Name: "vendor-bursts", N: func(t string) uint64 { n := uint64(len(c04Dict())); return n * n }, Run: c04VendorBursts},
 			{Name: "large-bursts", N: func(t string) uint64 { return tierN(t, 60, 2000) }, Run: c04LargeBursts},
 		},
 		Exhaustive: func(t string) bool { return t == "thorough" },
@@ -668,4 +669,63 @@ func c04LargeBursts(c *lib.Ctx, idx uint64) {
 	c.NontrivialN(n)
 	c.Count("large_files_corrupted", 1)
 	c.Count("large_file_bytes", int64(len(orig)))
+}
+
+// c04Dict: the source dictionary restricted to 16-bit values.
+func c04Dict() []uint16 {
+	var out []uint16
+	for _, v := range lib.SourceDictionary() {
+		if v <= 0xFFFF {
+			out = append(out, uint16(v))
+		}
+	}
+	return out
+}
+
+// c04VendorBursts: corruption must be detected whoever made the file. The (manufacturer,
+// product) pairs come from the integer values that occur in the library's own sources: a
+// vendor-specific exception in the code under test names its vendor there.
+func c04VendorBursts(c *lib.Ctx, idx uint64) {
+	d := c04Dict()
+	m, p := d[idx/uint64(len(d))], d[idx%uint64(len(d))]
+	arch := byte(idx % 2)
+	put16 := func(v uint16) []byte {
+		b := make([]byte, 2)
+		ref.Put(b, uint64(v), 2, arch)
+		return b
+	}
+	ts := make([]byte, 4)
+	ref.Put(ts, 0x3B9ACA00, 4, arch)
+	plan := &ref.Plan{HeaderSize: []byte{14, 12}[idx/2%2], Proto: 0x20, ProfVer: 2115}
+	plan.Records = append(plan.Records,
+		ref.Record{IsDef: true, Local: 0, Arch: arch, Global: 0, Fields: []ref.FieldDef{{Num: 0, Size: 1, Base: 0}, {Num: 1, Size: 2, Base: 0x84}, {Num: 2, Size: 2, Base: 0x84}}},
+		ref.Record{Local: 0, Data: [][]byte{{4}, put16(m), put16(p)}},
+		ref.Record{IsDef: true, Local: 1, Arch: arch, Global: 20, Fields: []ref.FieldDef{{Num: 253, Size: 4, Base: 0x86}, {Num: 3, Size: 1, Base: 0x02}, {Num: 4, Size: 1, Base: 0x02}}},
+		ref.Record{Local: 1, Data: [][]byte{ts, {120}, {80}}},
+		ref.Record{Local: 1, Data: [][]byte{ts, {121}, {81}}})
+	orig := plan.Bytes()
+	c.SetInflight(orig)
+	if de, ie, pn := detect(orig); de != nil || ie != nil || pn != "" {
+		c.Count("vendor_base_files_not_accepted", 1)
+		return
+	}
+	n := len(orig)
+	for _, pos := range []int{n - 3, n - 4, n - 5, n - 9, n - 2, n - 1} {
+		for _, bit := range []uint{0, 7} {
+			buf := append([]byte{}, orig...)
+			buf[pos] ^= 1 << bit
+			de, ie, pn := detect(buf)
+			c.EvalN(2)
+			if pn != "" {
+				c.Violation(buf, "corrupted file of manufacturer %d product %d: panic: %s", m, p, pn)
+				return
+			}
+			if de == nil || ie == nil {
+				c.Violation(buf, "corruption not detected in a file whose file_id says manufacturer %d, product %d: bit %d of byte %d flipped: Decode error %v, CheckIntegrity error %v", m, p, bit, pos, de, ie)
+				return
+			}
+		}
+	}
+	c.NontrivialN(12)
+	c.Count("vendor_pairs_from_the_source_dictionary", 1)
 }
